@@ -40,8 +40,8 @@ def field_text(ref, version, full):
         return t
     comps = []
     for cname, cref, (mn, mx), kind in ref[1]:
-        if mn < 1 and not full and comps:
-            comps.append('')
+        if mx == 0 or (mn < 1 and not full and any(comps)):
+            comps.append('')        # (max 0: a withdrawn component must stay empty)
             continue
         if cref[0] == 'leaf' or not cref[1]:
             t = field_text(cref, version, full)
@@ -49,7 +49,7 @@ def field_text(ref, version, full):
         else:
             subs = []
             for sname, sref, (smn, smx), skind in cref[1]:
-                if smn < 1 and not full and subs:
+                if smx == 0 or (smn < 1 and not full and any(subs)):
                     subs.append('')
                     continue
                 if sref[0] != 'leaf' and sref[1]:
@@ -101,8 +101,38 @@ def build(parent, ref, version, level, full=False, depth=0):
             g = Group(name, version=version, validation_level=level, reference=cref)
             if not build(g, cref, version, level, full, depth + 1):
                 return False
+            if not g.children and not force_first(g, cref, version, level, depth + 1):
+                return False
             parent.add(g)
     return True
+
+
+def force_first(g, ref, version, level, depth):
+    """a required group all of whose members are optional: an instance with no segment at all has no ER7 text, so the
+    first member is instantiated (recursively for a leading group)"""
+    from hl7apy.core import Group, Segment
+    for name, cref, (mn, mx), kind in ref[1]:
+        if kind == 'SEG':
+            if name == 'ANYHL7SEGMENT' or name.startswith('Z') or cref is None:
+                continue
+            try:
+                s = Segment(name, version=version, validation_level=level, reference=cref)
+            except Exception:
+                return False
+            if not fill_segment(s, cref, version):
+                return False
+            g.add(s)
+            return True
+        if cref is None or depth > 6:
+            return False
+        sub = Group(name, version=version, validation_level=level, reference=cref)
+        if not build(sub, cref, version, level, False, depth + 1):
+            return False
+        if not sub.children and not force_first(sub, cref, version, level, depth + 1):
+            return False
+        g.add(sub)
+        return True
+    return False
 
 
 def has_duplicate_names(ref, depth=0):
@@ -316,7 +346,8 @@ def main():
         L = lib(v)
         if 'ORU_R01' not in L.MESSAGES or 'ADT_A01' not in L.MESSAGES:
             continue
-        text = 'MSH|^~\\&|S|F|R|F|20200131||ORU^R01^ORU_R01|ID|P|%s\rPID|1||5\rOBR|1||X|C\rNTE|1||a\rOBX|1|ST|G||v\rOBR|2||Y|C\rNTE|1||b\rOBX|1|ST|G||w' % v
+        # (MSH-9 has two components before v2.3.1: a third one is rightly refused under STRICT)
+        text = 'MSH|^~\\&|S|F|R|F|20200131||' + ('ORU^R01^ORU_R01' if v >= '2.3.1' else 'ORU^R01') + '|ID|P|%s\rPID|1||5\rOBR|1||X|C\rNTE|1||a\rOBX|1|ST|G||v\rOBR|2||Y|C\rNTE|1||b\rOBX|1|ST|G||w' % v
         for lvl in (None, 2, 1):
             try:
                 parse_message(text, validation_level=lvl, message_profile={'ADT_A01': L.MESSAGES['ADT_A01']})
